@@ -781,8 +781,10 @@ func (e *c02) pushPull(i, j int, half bool) bool {
 			}
 			// the observer applied the member's leave through the state sync (left list)
 			// rather than through gossip: it has heard the leave all the same
+			// (a status older than the member's current leave is an earlier incarnation's leave
+			// still going round: hearing that is not hearing this one)
 			if e.m[x].leaving && (after[name].Status == "leaving" || after[name].Status == "left") &&
-				before[name].Status != "leaving" && before[name].Status != "left" {
+				before[name].Status != "leaving" && before[name].Status != "left" && after[name].LTime >= e.m[x].lastLeaveL {
 				e.m[x].leaveHeard[o] = true
 				e.r.Probe("leave-heard-through-state-sync")
 			}
